@@ -23,6 +23,8 @@ inductive PVal (α : Type) where
   | q (x : Quantity α)
   | b (x : Bool)
   | list (vs : List (PVal α))
+  /-- a struct instance: the field values in the order of the struct definition -/
+  | struct (vs : List (PVal α))
 deriving Inhabited
 
 /-- run-time failures: a quantity error of the VM, or an ill-typed operand (`stuck`: the VM would panic
@@ -67,6 +69,11 @@ inductive PExpr (α : Type) where
   | tail (l : PExpr α)
   | cons (a l : PExpr α)
   | len (l : PExpr α)
+  /-- struct literal: `fields` is the chain of the field expressions in the order in which the compiler
+  evaluates them — the *reverse* of the definition order, whatever the order in the source -/
+  | mk (fields : PExpr α)
+  /-- field access by the index of the field in the struct definition -/
+  | get (e : PExpr α) (i : Nat)
 deriving Repr
 
 /-- a user function: number of parameters, the right-hand sides of its `where` clauses (each may refer to the
@@ -214,6 +221,18 @@ def evalP (tbl : Table α) (fns : List (FnDef α)) (glob : List (PVal α)) :
         | .ok (.list vs) => .ok (.list (v :: vs))
         | .ok _ => .error .stuck
         | .error err => .error err
+    | .mk fields =>
+      match evalArgs tbl fns glob fuel loc fields with
+      | .ok vs => .ok (.struct vs.reverse)
+      | .error err => .error err
+    | .get e i =>
+      match evalP tbl fns glob fuel loc e with
+      | .ok (.struct vs) =>
+        match vs[i]? with
+        | some v => .ok v
+        | none => .error .stuck
+      | .ok _ => .error .stuck
+      | .error err => .error err
     | .len l =>
       match evalP tbl fns glob fuel loc l with
       | .ok (.list vs) => .ok (.q ⟨natToNum vs.length, [], true⟩)
